@@ -161,11 +161,11 @@ def build_program(rng, nvals):
                             '~(~((%s - %d) * %d) - %d)' % (name, a, q, vv % q)])
             val = ('lit', vv)
         elif form == 'label':
-            lab = rng.choice(['LA', 'LB'])
+            lab = rng.choice(['LA', 'LB', 'LP'])
             e = lab
             val = ('label', lab, 0)
         else:
-            lab = rng.choice(['LA', 'LB'])
+            lab = rng.choice(['LA', 'LB', 'LP'])
             base = interesting_value(rng) & ~3
             btxt = spell(rng, base)
             if rng.random() < 0.4:
@@ -235,6 +235,7 @@ def build_program(rng, nvals):
         gap1 -= gap1 % 2
     # `first` indices refer to body positions == line indices
     lines.append('string ' + 'A' * gap1)
+    lines.append('LP:')             # a label directly in front of an `align` (which pads in some layouts and has nothing to do in others)
     lines.append('align 4')
     lines.append('LA:')
     lines.append('string ' + 'B' * rng.choice([4, 0x7fc, 0x1000, rng.randrange(4, 0x2000, 4)]))
